@@ -428,11 +428,27 @@ pub fn run_store(case: &Value) -> Value {
             "unify" | "eq" => state.unify(&b.term(&op[1]), &b.term(&op[2])),
             "disunify" | "neq" => state.disunify(&b.term(&op[1]), &b.term(&op[2])),
             "dom" => {
-                let x = state.smap_ref().walk(&b.term(&op[1])).clone();
-                state.process_domain(&x, Rc::new(domain(&op[2])))
+                let t = b.term(&op[1]);
+                if t.is_list() {
+                    let mut r = Ok(state);
+                    for e in t.iter() {
+                        r = r.and_then(|s| {
+                            let x = s.smap_ref().walk(e).clone();
+                            s.process_domain(&x, Rc::new(domain(&op[2])))
+                        });
+                    }
+                    r
+                } else {
+                    let x = state.smap_ref().walk(&t).clone();
+                    state.process_domain(&x, Rc::new(domain(&op[2])))
+                }
             }
             "ltefd" => LessThanOrEqualFdConstraint::new(b.term(&op[1]), b.term(&op[2])).run(state),
             "neqfd" => DiseqFdConstraint::new(b.term(&op[1]), b.term(&op[2])).run(state),
+            // ltfd(u, v) = [diseqfd(u, v), ltefd(u, v)]
+            "ltfd" => DiseqFdConstraint::new(b.term(&op[1]), b.term(&op[2]))
+                .run(state)
+                .and_then(|s| LessThanOrEqualFdConstraint::new(b.term(&op[1]), b.term(&op[2])).run(s)),
             "plusfd" => PlusFdConstraint::new(b.term(&op[1]), b.term(&op[2]), b.term(&op[3])).run(state),
             "minusfd" => MinusFdConstraint::new(b.term(&op[1]), b.term(&op[2]), b.term(&op[3])).run(state),
             "timesfd" => TimesFdConstraint::new(b.term(&op[1]), b.term(&op[2]), b.term(&op[3])).run(state),
